@@ -234,6 +234,10 @@ fn tweak_for(prop: &str) -> impl Fn(&mut Swarm) {
             if sw.guard("c03_no_ints_beyond_2_53") {
                 sw.extreme_ints = false;
             }
+            if sw.max_rows_stmt == 5 {
+                // floating point flavour (see scen_mask): room for probes after the bulk load
+                sw.steps = sw.steps.max(44);
+            }
             if sw.max_rows_stmt == 6 {
                 // one run in 6: a bulk-loaded table (more than one SIMD type probe window, sparse columns)
                 sw.big_rows = *[130usize, 260, 1100].get((sw.null_pct as usize + sw.steps) % 3).unwrap_or(&130);
